@@ -79,6 +79,12 @@ func (s *Service) HandleHeadEvent(event *apiv1.Event) {
 	// Remove old subscriptions if present.
 	s.subscriptionInfosMutex.Lock()
 	delete(s.subscriptionInfos, s.chainTimeService.SlotToEpoch(data.Slot)-2)
+	// An epoch without a head event leaves its turn out: remove anything older as well.
+	for subscriptionEpoch := range s.subscriptionInfos {
+		if subscriptionEpoch+2 < s.chainTimeService.SlotToEpoch(data.Slot) {
+			delete(s.subscriptionInfos, subscriptionEpoch)
+		}
+	}
 	s.subscriptionInfosMutex.Unlock()
 
 	// Only verify on current slot.
